@@ -24,7 +24,29 @@ func byteLenTerm(v *Term) *Term {
 	if v.IsConst() && v.k.Sign() >= 0 {
 		return Int(int64((v.k.BitLen() + 7) / 8))
 	}
+	if v.op == "ite" && constLeafCount(v, 0) > 0 {
+		return Ite(v.args[0], byteLenTerm(v.args[1]), byteLenTerm(v.args[2]))
+	}
 	return App(fnByteLen, bi(0), bi(1<<20), v)
+}
+
+// byteLen is byteLenTerm plus the facts about the constants that may flow into it.
+func (ex *Exec) byteLen(v *Term) *Term {
+	var walk func(t *Term, d int)
+	walk = func(t *Term, d int) {
+		if d > 8 {
+			return
+		}
+		if t.op == "const" && t.k.Sign() >= 0 && t.k.BitLen() > 62 {
+			ex.assumeGlobal(Eq(App(fnByteLen, bi(0), bi(1<<20), t), Int(int64((t.k.BitLen()+7)/8))))
+		}
+		if t.op == "ite" {
+			walk(t.args[1], d+1)
+			walk(t.args[2], d+1)
+		}
+	}
+	walk(v, 0)
+	return byteLenTerm(v)
 }
 
 func init() {
@@ -63,6 +85,8 @@ func init() {
 		ex.oblige("nil", "big.Exp operands", reach, And(Ne(ex.ptr(args[1]).Ref, Int(0)), Ne(ex.ptr(args[2]).Ref, Int(0))))
 		r := App(fnModExp, nil, nil, x, y, m)
 		ex.assume(And(reach, Gt(m, Int(0))), And(Le(Int(0), r), Lt(r, m)))
+		// byte length is monotone: r < m  =>  bytelen(r) <= bytelen(m)
+		ex.assume(And(reach, Gt(m, Int(0))), Le(ex.byteLen(r), ex.byteLen(m)))
 		ex.setBigVal(reach, p.Ref, r)
 		return p, reach
 	}
@@ -71,7 +95,7 @@ func init() {
 		p := ex.ptr(args[0])
 		ex.oblige("nil", "big.Bytes receiver", reach, Ne(p.Ref, Int(0)))
 		v := ex.bigVal(p.Ref)
-		n := byteLenTerm(v)
+		n := ex.byteLen(v)
 		ref := ex.newObj()
 		ex.mem.Copy(ex.byteKind(), reach, ref, Int(0), n, ex.unknownBytes(), Int(0))
 		ex.ghost["bigbytes:"+ref.String()] = v
